@@ -263,6 +263,48 @@ def correspond(ctx):
     dist["several signatures of one algorithm: verifications"] = len(vreq)
     st["evaluations"] += len(vreq)
 
+    # ---- C2b: a token grows signature by signature (flattened -> general), the algorithm placed in the protected header,
+    #           in the unprotected header only, or left to the key: after every addition EVERY signer's key verifies
+    grow = 0
+    hk = [G.oct_key(rnd, 32), G.oct_key(rnd, 48)]
+    signers = [("HS256", hk[0], hk[0]), ("HS384", hk[1], hk[1])]
+    for a_, kn in (("ES256", "P-256"), ("ES384", "P-384"), ("RS256", "RSA2048")):
+        if ks0.get(kn):
+            signers.append((a_, ks0[kn], G.pub_of(ks0[kn])))
+    forms = {"protected": lambda a: G.dumps({"protected": {"alg": a}}), "header": lambda a: G.dumps({"header": {"alg": a}}),
+             "both": lambda a: G.dumps({"protected": {"alg": a}, "header": {"kid": "k-" + a}}), "inferred": lambda a: "-"}
+    for first_form in forms:
+        for second_form in forms:
+            for _ in range(2 if ctx["tier"] == "quick" else 8):
+                seq = rnd.sample(signers, rnd.choice([2, 2, 3]))
+                tok = G.dumps({"payload": G.b64(b"grows")})
+                done_ = []
+                ok_ = True
+                for i, (a_, sk, vk) in enumerate(seq):
+                    fm = first_form if i == 0 else second_form
+                    if fm == "inferred" and a_ in ("HS384",):
+                        fm = "protected"          # a 48-octet key is inferred as HS384 anyway; keep the case simple
+                    line = "jwssig\t%s\t%s\t%s" % (tok, forms[fm](a_), G.dumps(sk))
+                    o = G.harness(bdir, [line])[0]
+                    grow += 1
+                    if o == "ERR" or o.startswith("CRASH"):
+                        rep.violation("grow-sign-failed:%s:%s" % (fm, a_[:2]), "adding a %s signature (algorithm given through: %s) to a token with %d signature(s) failed: %s" % (a_, fm, i, o[:80]), {"case": line[:3000]})
+                        ok_ = False
+                        break
+                    tok = o
+                    done_.append((a_, vk, fm))
+                    vl = ["jwsver\t%s\t-\t%s\t0" % (tok, G.dumps(v)) for _, v, _ in done_] + ["jwsver\t%s\t-\t%s\t1" % (tok, G.dumps([v for _, v, _ in done_]))]
+                    for (v_, o2) in zip(vl, G.harness(bdir, vl)):
+                        grow += 1
+                        if o2 != "T":
+                            rep.violation("grow-earlier-signature-lost", "after adding signature %d (%s, algorithm through %s; the first one through %s) a signer's key no longer verifies the token: %s"
+                                          % (i + 1, a_, fm, first_form, o2[:40]), {"case": v_[:3000], "history": [(x, z) for x, _, z in done_]})
+                            ok_ = False
+                    if not ok_:
+                        break
+    dist["tokens grown signature by signature (alg in protected / unprotected header / inferred): calls"] = grow
+    st["evaluations"] += grow
+
     # ---- C3: the streaming producer (jose_jws_sig_io) fed the payload text in arbitrary chunks makes the same token as
     #          the one-shot call (HMAC: bit for bit; ECDSA/RSA: the product verifies and carries the same header)
     sreq2, sone, smeta = [], [], []
